@@ -41,9 +41,9 @@ def module_prologues():
     return pro
 
 
-def generate(units=None, repo=None):
+def generate(units=None, repo=None, no_body_hints=()):
     entries = all_entries()
-    em = gen.build(entries, units, repo=repo)
+    em = gen.build(entries, units, repo=repo, no_body_hints=no_body_hints)
     prelude = open(os.path.join(ROOT, 'spec', 'prelude.rs'), encoding='utf-8').read()
     vs = open(os.path.join(ROOT, 'spec', 'vs.rs'), encoding='utf-8').read()
     text, line_map = gen.render(em, prelude, gen_shim() + '\n' + vs, module_prologues())
